@@ -36,7 +36,6 @@ type c12Err struct{}
 
 func (*c12Err) Error() string { return "bind failed" }
 
-
 func c12Setup(phase string, failed int32, limit *int32) (*BindRequestReconciler, *fake.Store, *c12Binder) {
 	st := fake.NewStore()
 	st.Pods["ns/p"] = &v1.Pod{ObjectMeta: metav1.ObjectMeta{Name: "p", Namespace: "ns"}}
